@@ -672,3 +672,348 @@ def template_fix_case(draw, templaters=("jinja", "jinja", "jinja", "python", "pl
              else draw(st.sampled_from(_FIX_PIECES)) for _ in range(draw(st.integers(2, 10)))]
     return {"dialect": "ansi", "templater": "placeholder", "sql": "".join(parts), "param_style": style, "context": ctx,
             "rules": rules, "shape": "pieces"}
+
+
+# --------------------------------------------------------------------------- G-sql, extended (C16): executable sqlite
+# queries containing the constructs the rewriting rules look for.  Separate class so that SqlGen's random stream (used
+# by other checks) is untouched.
+
+XFEATURES = dict(noise=True, comments=True, setops=True, cte=True, subquery=True, groupby=True, orderby=True, limit=True,
+                 concat=True, upper_idents=True, quoted=True, mixed_qual=True, nested_case=True, case_shapes=True,
+                 join_subquery=True, cross_join=True, where_join=True, using=True, self_alias=True, count1=True,
+                 distinct=False, distinct_brackets=False, max_depth=2, ordinals=True,
+                 negated_bool_case=True)
+
+
+class SqlGenX:
+    def __init__(self, rng, **features):
+        self.rng = rng
+        self.f = dict(XFEATURES)
+        self.f.update(features)
+        self.used = set()
+
+    # -- lexical noise
+    def kw(self, s):
+        if not self.f["noise"]:
+            return s
+        r = self.rng.random()
+        return s.lower() if r < 0.3 else (s.capitalize() if r < 0.35 else s)
+
+    def ws(self):
+        if not self.f["noise"]:
+            return " "
+        return self.rng.choice([" ", " ", " ", "  ", "\n", "\n    ", "\t", " \n"])
+
+    def ident(self, s):
+        r = self.rng.random()
+        if self.f["upper_idents"] and r < 0.12:
+            return s.upper()
+        if self.f["quoted"] and r < 0.18:
+            self.used.add("quoted")
+            return '"' + s + '"'
+        return s
+
+    def comment(self):
+        if self.f["comments"] and self.rng.random() < 0.08:
+            return self.rng.choice([" -- c1\n", " /* c2 */ ", "\n-- c3\n"])
+        return ""
+
+    def comma(self):
+        return self.rng.choice([", ", ", ", ",", " ,", "\n    , ", ",\n    "]) if self.f["noise"] else ", "
+
+    # -- references: cols is a list of (qualifier or None, column, must_qualify)
+    def ref(self, cols):
+        q, c, must = self.rng.choice(cols)
+        if q is None:
+            return self.ident(c)
+        if must:
+            return f"{q}.{self.ident(c)}"
+        mode = self.refmode
+        if mode == "mixed":
+            mode = self.rng.choice(["qual", "unqual"])
+        return f"{q}.{self.ident(c)}" if mode == "qual" else self.ident(c)
+
+    def expr(self, cols, depth=0):
+        rng = self.rng
+        r = rng.random()
+        E = lambda: self.expr(cols, depth + 1)
+        if depth > self.f["max_depth"] or r < 0.33:
+            return self.ref(cols)
+        if r < 0.42:
+            return str(rng.randint(0, 5))
+        if r < 0.47:
+            return rng.choice(["'x'", "'It''s'", "NULL", "null", "''", "1.5"])
+        if r < 0.56:
+            self.used.add("brackets")
+            return f"({E()})"
+        if r < 0.68:
+            ops = [" + ", "+", " - ", " * ", " - "] + ([" || ", "||"] if self.f["concat"] else [])
+            return f"{E()}{rng.choice(ops)}{E()}"
+        if r < 0.74:
+            return f"{self.kw('COALESCE')}({E()}, {E()})"
+        if r < 0.80:
+            self.used.add("ifnull")
+            return f"{self.kw('IFNULL')}({E()},{rng.choice(['', ' '])}{E()})"
+        if r < 0.90:
+            return self.case(cols, depth + 1)
+        if r < 0.94:
+            return f"{self.kw('CAST')}({E()} {self.kw('AS')} {rng.choice(['INTEGER', 'TEXT', 'int', 'REAL'])})"
+        return f"{rng.choice(['abs', 'ABS', 'length', 'upper', 'Lower', 'typeof'])}({E()})"
+
+    def case(self, cols, depth):
+        rng = self.rng
+        E = lambda: self.expr(cols, depth + 1)
+        C = lambda: self.cond(cols, depth + 1)
+        k = self.kw
+        r = rng.random()
+        if self.f["case_shapes"] and r < 0.12:
+            self.used.add("case:else-null")
+            return f"{k('CASE')} {k('WHEN')} {C()} {k('THEN')} {E()} {k('ELSE')} {k('NULL')} {k('END')}"
+        if self.f["case_shapes"] and r < 0.24:
+            self.used.add("case:coalesce-shape")
+            x = self.ref(cols)
+            if rng.random() < 0.5:
+                return f"{k('CASE')} {k('WHEN')} {x} {k('IS NULL')} {k('THEN')} {E()} {k('ELSE')} {x} {k('END')}"
+            return f"{k('CASE')} {k('WHEN')} {x} {k('IS NOT NULL')} {k('THEN')} {x} {k('ELSE')} {E()} {k('END')}"
+        if self.f["case_shapes"] and r < 0.32:
+            self.used.add("case:bool-shape")
+            a, b = rng.choice([("TRUE", "FALSE"), ("FALSE", "TRUE"), ("true", "false")])
+            if a == "FALSE" and not self.f["negated_bool_case"]:
+                a, b = b, a
+            if a == "FALSE":
+                self.used.add("case:negated-bool-shape")
+            return f"{k('CASE')} {k('WHEN')} {C()} {k('THEN')} {a} {k('ELSE')} {b} {k('END')}"
+        if self.f["nested_case"] and r < 0.55 and depth < 3:
+            self.used.add("case:nested")
+            inner = (f"{k('CASE')} {k('WHEN')} {C()} {k('THEN')} {E()}"
+                     + (f" {k('ELSE')} {E()}" if rng.random() < 0.7 else "") + f" {k('END')}")
+            return f"{k('CASE')} {k('WHEN')} {C()} {k('THEN')} {E()} {k('ELSE')}{self.ws()}{inner}{self.ws()}{k('END')}"
+        if r < 0.7:
+            x = self.ref(cols)
+            return (f"{k('CASE')} {x} {k('WHEN')} {rng.randint(0, 3)} {k('THEN')} {E()} {k('WHEN')} 'x' {k('THEN')} {E()}"
+                    + (f" {k('ELSE')} {E()}" if rng.random() < 0.6 else "") + f" {k('END')}")
+        return (f"{k('CASE')} {k('WHEN')} {C()} {k('THEN')} {E()}"
+                + (f" {k('WHEN')} {C()} {k('THEN')} {E()}" if rng.random() < 0.3 else "")
+                + (f" {k('ELSE')} {E()}" if rng.random() < 0.7 else "") + f" {k('END')}")
+
+    def cond(self, cols, depth=0):
+        rng = self.rng
+        r = rng.random()
+        a = self.expr(cols, depth + 1)
+        b = self.expr(cols, depth + 1)
+        k = self.kw
+        if r < 0.4:
+            op = rng.choice([" = ", " <> ", " != ", " < ", ">=", "=", "!=", "<>", " <= ", " = "])
+            return f"{a}{op}{b}"
+        if r < 0.5:
+            return f"{a} {k('IS')} {k('NULL')}"
+        if r < 0.55:
+            return f"{a} {k('IS NOT NULL')}"
+        if r < 0.63:
+            return f"{a} {k('IN')} (1, 2,3)"
+        if r < 0.66:
+            return f"{a} {k('NOT IN')} (0,'x')"
+        if r < 0.75 and depth < 2:
+            self.used.add("brackets")
+            return f"({self.cond(cols, depth + 1)} {k(rng.choice(['AND', 'OR']))} {self.cond(cols, depth + 1)})"
+        if r < 0.85 and depth < 2:
+            return f"{self.cond(cols, depth + 1)} {k(rng.choice(['AND', 'OR']))} {self.cond(cols, depth + 1)}"
+        if r < 0.9:
+            return f"{k('NOT')} {a} = {b}"
+        if r < 0.95:
+            return f"{a} {k('BETWEEN')} 0 {k('AND')} 3"
+        return f"{a} {k('LIKE')} 'x%'"
+
+    def source(self, depth):
+        """FROM clause: returns (sql, cols, extra_where or None)."""
+        rng = self.rng
+        k = self.kw
+        t = rng.choice(list(T))
+        alias = rng.choice([None, None, "x", "tt"])
+        q = alias or t
+        as_ = (rng.choice([" AS ", " as ", " "]) if self.f["noise"] else " AS ")
+        frm = t + (as_ + alias if alias else "")
+        if alias and as_ == " ":
+            self.used.add("implicit-table-alias")
+        cols = [(q, c, False) for c in T[t]]
+        r = rng.random()
+        if r < 0.38 and depth < 2:
+            kind = rng.choice(["on", "on", "on", "subq", "cross", "where", "using"])
+            t2 = rng.choice([x for x in T if x != t])
+            a2 = rng.choice(["y", "j"])
+            names1 = set(T[t])
+            if kind == "subq" and self.f["join_subquery"]:
+                self.used.add("join:subquery")
+                sub = self.select(depth + 1, alias_all=True, plain=True)
+                cols2 = sub["names"]
+                right = f"({sub['sql']}) {k('AS')} {a2}"
+            else:
+                cols2 = list(T[t2])
+                right = f"{t2}{rng.choice([' AS ', ' as ', ' ']) if self.f['noise'] else ' AS '}{a2}"
+            amb = names1 & set(cols2)
+            allcols = [(q, c, c in amb) for c in T[t]] + [(a2, c, c in amb) for c in cols2]
+            jk = k(rng.choice(["JOIN", "JOIN", "INNER JOIN", "LEFT JOIN", "LEFT OUTER JOIN"]))
+            jc1, jc2 = rng.choice(T[t]), rng.choice(cols2)
+            l, rr = f"{q}.{jc1}", f"{a2}.{jc2}"
+            if rng.random() < 0.4:
+                l, rr = rr, l
+                self.used.add("join:reversed-condition")
+            on = f"{l}{rng.choice([' = ', '=', ' = '])}{rr}"
+            if rng.random() < 0.25:
+                on += f" {k('AND')} {q}.{rng.choice(T[t])} {rng.choice(['<>', '!=', '<', '>='])} {a2}.{rng.choice(cols2)}"
+            if kind == "cross" and self.f["cross_join"]:
+                self.used.add("join:no-condition")
+                return f"{frm}{self.ws()}{k(rng.choice(['JOIN', 'CROSS JOIN', 'INNER JOIN']))} {right}", allcols, None
+            if kind == "where" and self.f["where_join"]:
+                self.used.add("join:condition-in-where")
+                return f"{frm}{self.ws()}{k(rng.choice(['JOIN', 'INNER JOIN']))} {right}", allcols, on
+            if kind == "using" and self.f["using"] and amb and cols2 == list(T.get(t2, [])):
+                self.used.add("join:using")
+                c = sorted(amb)[0]
+                # after USING the shared column may be referenced unqualified, never qualified-ambiguously
+                ucols = [(q, x, False) for x in T[t] if x != c] + [(a2, x, False) for x in cols2 if x != c] + [(None, c, False)]
+                return f"{frm}{self.ws()}{jk} {right} {k('USING')} ({c})", ucols, None
+            self.used.add("join:on")
+            return f"{frm}{self.ws()}{jk} {right} {k('ON')} {on}", allcols, None
+        if self.f["subquery"] and r < 0.5 and depth < 2:
+            self.used.add("from:subquery")
+            sub = self.select(depth + 1, alias_all=True, plain=True)
+            return f"({sub['sql']}) {k('AS')} sq", [("sq", c, False) for c in sub["names"]], None
+        return frm, cols, None
+
+    def select(self, depth=0, nitems=None, alias_all=False, plain=False):
+        rng = self.rng
+        k = self.kw
+        saved_mode = getattr(self, "refmode", None)
+        frm, cols, extra_where = self.source(depth)
+        self.refmode = rng.choice(["qual", "unqual", "mixed"] if self.f["mixed_qual"] else ["qual", "unqual"])
+        if self.refmode == "mixed":
+            self.used.add("mixed-qualification")
+        n = nitems or rng.randint(1, 3)
+        items, names = [], []
+        for i in range(n):
+            e = self.expr(cols)
+            r = rng.random()
+            bare = re.fullmatch(r"[a-z]", e)
+            if self.f["self_alias"] and bare and r < 0.15 and not alias_all:
+                self.used.add("self-alias")
+                items.append((e, f" {k('AS')} {e}"))
+                names.append(e)
+            elif alias_all or r < 0.55:
+                nm = f"c{i}"
+                as_ = rng.choice([" AS ", " as ", " "]) if self.f["noise"] else " AS "
+                if as_ == " ":
+                    self.used.add("implicit-column-alias")
+                items.append((e, f"{as_}{nm}"))
+                names.append(nm)
+            else:
+                items.append((e, ""))
+                names.append(None)
+        distinct = ""
+        if self.f["distinct"] and rng.random() < 0.2:
+            self.used.add("distinct")
+            distinct = k("DISTINCT") + self.ws()
+            if self.f["distinct_brackets"] and rng.random() < 0.5:
+                self.used.add("distinct-brackets")
+                items[0] = ("(" + items[0][0] + ")", items[0][1])
+                distinct = k("DISTINCT") + rng.choice(["", " ", " "])
+        items = [e + a for e, a in items]
+        where = []
+        if extra_where:
+            where.append(extra_where)
+        if rng.random() < 0.5:
+            where.append(self.cond(cols))
+        wsql = (f"{self.ws()}{k('WHERE')} " + f" {k('AND')} ".join(where)) if where else ""
+        s = (f"{k('SELECT')}{self.ws()}{distinct}{self.comma().join(items)}{self.comment()}{self.ws()}"
+             f"{k('FROM')} {frm}{wsql}")
+        if self.f["groupby"] and rng.random() < 0.15 and not nitems and not alias_all:
+            g = self.ref(cols)
+            agg = rng.choice(["COUNT(*)", "COUNT(*)", "COUNT(1)" if self.f["count1"] else "COUNT(*)",
+                              "count(0)" if self.f["count1"] else "count(*)", f"SUM({self.ref(cols)})", f"max({self.ref(cols)})"])
+            if "(1)" in agg or "(0)" in agg:
+                self.used.add("count-1")
+            self.used.add("group-by")
+            s = (f"{k('SELECT')} {g}, {agg}{rng.choice([' AS n', ' n', ''])}{self.ws()}{k('FROM')} {frm}{wsql}{self.ws()}"
+                 f"{k('GROUP BY')} {rng.choice([g, '1']) if self.f['ordinals'] else g}" + (f" {k('HAVING')} {k('COUNT')}(*) > 0" if rng.random() < 0.2 else ""))
+            names, n = [None, "n"], 2
+            keys = [g, agg]
+        else:
+            keys = [nm if nm is not None else ("(" + it + " + 0)" if re.fullmatch(r"[\d.]+|'.*'|null|NULL", it) else it)
+                    for it, nm in zip(items, names)]
+        if self.f["orderby"] and depth == 0 and not plain and rng.random() < 0.3:
+            self.used.add("order-by")
+            if self.f["ordinals"]:
+                self.used.add("ordinal-position")
+            dirs = lambda: rng.choice(["", "", " DESC", " asc", " ASC", " desc"])
+            if self.f["limit"] and rng.random() < 0.5:
+                self.used.add("limit")
+                # total order over the output row
+                order = ", ".join(f"{(i + 1) if self.f['ordinals'] else keys[i]}{dirs()}" for i in range(n))
+                s += (f"{self.ws()}{k('ORDER BY')} {order}{self.ws()}{k('LIMIT')} {rng.randint(0, 4)}"
+                      + (f" {k('OFFSET')} {rng.randint(0, 2)}" if rng.random() < 0.3 else ""))
+            else:
+                order = ", ".join(f"{rng.randint(1, n) if self.f['ordinals'] else rng.choice(keys)}{dirs()}"
+                                  for _ in range(rng.randint(1, 2)))
+                s += f"{self.ws()}{k('ORDER BY')} {order}"
+        self.refmode = saved_mode
+        return {"sql": s, "names": names if all(names) else [x for x in names if x], "all_named": all(names), "n": n}
+
+    def query(self):
+        rng = self.rng
+        k = self.kw
+        r = rng.random()
+        if self.f["setops"] and r < 0.15:
+            self.used.add("set-operator")
+            n = rng.randint(1, 2)
+            a, b = self.select(1, nitems=n, plain=True), self.select(1, nitems=n, plain=True)
+            op = rng.choice(["UNION", "UNION ALL", "UNION", "EXCEPT", "INTERSECT"])
+            return f"{a['sql']}{self.ws()}{k(op)}{self.ws()}{b['sql']}"
+        if self.f["cte"] and r < 0.32:
+            self.used.add("cte")
+            s = self.select(1, alias_all=True, plain=True)
+            ctes = f"cte {k('AS')} ({s['sql']})"
+            if rng.random() < 0.3:
+                s2 = self.select(1, alias_all=True, plain=True)
+                ctes += f"{self.comma()}cte2 {k('AS')}{rng.choice([' ', '', ' '])}({s2['sql']})"
+            cols = [("cte", c, False) for c in s["names"]]
+            self.refmode = rng.choice(["qual", "unqual", "mixed"])
+            items = self.comma().join(self.expr(cols) for _ in range(rng.randint(1, 2)))
+            w = f"{self.ws()}{k('WHERE')} {self.cond(cols)}" if rng.random() < 0.4 else ""
+            return f"{k('WITH')} {ctes}{self.ws()}{k('SELECT')} {items} {k('FROM')} cte{w}"
+        return self.select()["sql"]
+
+    def finish(self, s):
+        if not self.f["noise"]:
+            return s + "\n"
+        return s + self.rng.choice([";", "", ";", " ;"]) + self.rng.choice(["\n", "", "\n\n", " \n"])
+
+
+SQL_VALUES = [None, None, 0, 1, 2, 3, 5, -1, "x", "y", "", "It's", 1.5]
+
+
+@st.composite
+def gsqlx_case(draw, dialect="sqlite", populations=3, max_len=None, **features):
+    """Executable query (extended construct set) + `populations` table populations for t1(a,b,c), t2(a,d), t3(k,v).
+    max_len: regenerate (up to 6 times, then keep the shortest) until the text is at most that long (fix cost grows
+    steeply with length)."""
+    rng = draw(st.randoms(use_true_random=False))
+    best = None
+    for _ in range(6):
+        g = SqlGenX(rng, **features)
+        sql = g.finish(g.query())
+        if best is None or len(sql) < len(best[0]):
+            best = (sql, g)
+        if max_len is None or len(sql) <= max_len:
+            break
+    sql, g = best
+    val = st.sampled_from(SQL_VALUES)
+    pops = []
+    for i in range(populations):
+        pop = {}
+        for t, cs in T.items():
+            rows = draw(st.lists(st.lists(val, min_size=len(cs), max_size=len(cs)), min_size=0, max_size=6))
+            if rows and draw(st.integers(0, 3)) == 0:
+                rows = rows + [rows[0]]  # duplicates
+            pop[t] = rows
+        pops.append(pop)
+    return {"dialect": dialect, "sql": sql, "pops": pops, "constructs": sorted(g.used), "origin": "gsqlx"}
